@@ -1,5 +1,5 @@
 HARNESSES = {
-    'ZeroRadius': dict(split={'smooth': 3}),
+    'ZeroRadius': dict(split={'smooth': 3}, oracle=6, job_timeout_s=150),
     'ZeroRadiusRel': dict(mode='X', validate=0),  # rounded-real reading: unknown at 60 s (nlsat); exact-real decides the algebra only
     'Segments': dict(skip=True),
     'General': dict(mode='X', validate=0, oracle=6, inproc_ms=2000, ext_s=20, split={'rot': 2, 'large': 2, 'sweep': 2}, opts=dict(feas_timeout_ms=300, ifconv=False)),
